@@ -592,6 +592,31 @@ def check_type_sources(fail, q, f, decl, safe, opts, is_ctor, warnings):
 def check_cross(prop, pkg, runs) -> list:
     """properties that relate several runs on one package; runs = [(opts, res)]"""
     fails = []
+    if prop == "C09":
+        import oracles_gen
+        off = [r for o, r in runs if not o.get("convert", False) and r["outcome"] == "ok"]
+        on = [r for o, r in runs if o.get("convert", False) and r["outcome"] == "ok"]
+
+        class _Ctx:
+            prop = "C09"
+
+            def oracle_failure(self, p, what, replay):
+                fails.append((p, what, {k: v for k, v in replay.items() if k != "stage"}))
+        if off and on:
+            stub = lambda r: {p: t for p, t in r["files"].items() if p.endswith(".sdsstub")}
+            oracles_gen.check_flag_pair(_Ctx(), "e2e", ("ok", None, None, stub(off[0])), ("ok", None, None, stub(on[0])))
+    if prop == "C16":
+        for opts, res in runs:
+            again = res.get("second_run")
+            if again is None:
+                continue
+            if again["outcome"] != res["outcome"]:
+                fails.append(("C16", f"a second run into the same output directory ends with {again['outcome']}", {"options": opts}))
+            elif again["files"] != res["files"]:
+                bad = sorted(p for p in set(res["files"]) | set(again["files"]) if res["files"].get(p) != again["files"].get(p))
+                fails.append(("C16", f"a second run into the same output directory changed {bad[:3]}",
+                              {"options": opts, "paths": bad[:5], "first": {p: res['files'].get(p) for p in bad[:1]},
+                               "second": {p: again['files'].get(p) for p in bad[:1]}}))
     if prop == "C14":
         by = {}
         for opts, res in runs:
